@@ -452,6 +452,25 @@ def check(fx, rep, tier):
                                 how = "the watchdog's poll interval (0 is not a valid configuration)"
                             if df[0] == "assign" and df[3].get("r") == "Use" and F.op_const(df[3]["op"]) not in (None, 0):
                                 ok = True
+                        # the divisor is a parameter (a poll helper): every caller in the crate hands it the poll interval
+                        if not ok and root is not None and 1 <= root <= m.arg_count:
+                            callers_ok = []
+                            for cname in sorted(cg.callers_of(name)):
+                                cm = ta.mirs.get(cname)
+                                if cm is None:
+                                    continue
+                                for bl2 in cm.blocks:
+                                    t2 = bl2["term"]
+                                    if t2["t"] != "Call" or name not in ta.resolve(t2):
+                                        continue
+                                    a2 = t2["args"][root - 1] if root - 1 < len(t2["args"]) else None
+                                    l2 = F.op_base_local(a2) if a2 else None
+                                    r2 = ta.root_of(cname, l2) if l2 is not None else None
+                                    from_poll = any(d2[0] == "call" and (F.Mir.callee_generic(d2[3]) or "").endswith("Watchdog::poll_every") for d2 in cm.defs().get(r2, [])) if r2 is not None else False
+                                    callers_ok.append(from_poll)
+                            if callers_ok and all(callers_ok):
+                                ok = True
+                                how = "the watchdog's poll interval, handed to a poll helper by every caller"
                     if ok:
                         n_auto += 1
                         rep.oblige(True, "R01.1", key, w, "", sample={"rule": "R01.1", "site": key, "discharge": how} if n_auto <= 3 else None)
